@@ -44,7 +44,8 @@ RULE = ("cases = (generator kind, n, b, number of requests); every cursor owned 
         "(store snapshot, PRNG-key-consumed flag, batch) with points labelled by their row in the initial store; "
         "each scope is also run with one jitted get_batch (all non-stationary cases, small scopes of the others); "
         "non-trivial = the history crosses at least one epoch boundary after the first request (a second reshuffle "
-        "is observed) and the points of the store are pairwise distinct; distinct = distinct case dicts")
+        "is observed) and the points of the store are pairwise distinct; distinct = distinct case dicts"
+        " Plus: RAR-configured scopes of 40 and 64 active points in the default precision, nt_start given without RAR, and one whole epoch of a 40000-row observation table counted arithmetically (no Lean evaluation for that scope).")
 ASSUMPTIONS = [
     "generators configured for RAR (n_eff < n, kinds *_rar): the clauses are evaluated relative to the active points "
     "(Holds.holdsC09Active, equal to Holds.C09 when every point is active: holdsC09Active_self); the C09 theorems are "
